@@ -399,7 +399,17 @@ func (f *FuncCtx) unary(e *ast.UnaryExpr, env *Env) Val {
 	case token.ARROW:
 		// channel receive: havoc (the channel expression is still evaluated: it may be a call)
 		chv := f.expr(e.X, env)
-		_ = chv
+		if call, ok := ast.Unparen(e.X).(*ast.CallExpr); ok && f.spec == nil {
+			if sel, ok := ast.Unparen(call.Fun).(*ast.SelectorExpr); ok && sel.Sel.Name == "Done" {
+				if rt := f.typeOf(sel.X); rt != nil {
+					if n := namedOf(rt); n != nil && n.Obj().Pkg() != nil && n.Obj().Pkg().Path() == "context" {
+						cv := f.expr(sel.X, env)
+						f.S.declare("pure.context.Err", fmt.Sprintf("(declare-fun pure.context.Err (%s) Err)", f.sortOfVal(cv)))
+						f.assume(env, fmt.Sprintf("(not (= (pure.context.Err %s) nil_Err))", cv.T))
+					}
+				}
+			}
+		}
 		t := f.typeOf(e)
 		if tup, ok := t.(*types.Tuple); ok {
 			t = tup.At(0).Type()
